@@ -4,7 +4,7 @@
   Obligations are listed in harness/props/c35.py.
 -/
 import NiftyVerif.Lemmas.Response
-import NiftyVerif.Lemmas.ResponseLos6
+import NiftyVerif.Lemmas.ResponseLos7
 import NiftyVerif.Lemmas.Nft
 import NiftyVerif.Lemmas.LinOps
 import NiftyVerif.Props.C02
@@ -247,6 +247,23 @@ theorem los_traverse_in_grid (eps : ℚ) (heps : 0 ≤ eps) (shape : List ℕ) (
   exact flatF_in_grid m shape s (dirOf s e) hn
     (clipT_inside_strict shape s (dirOf s e) hn m (by linarith) (by linarith))
 
+/-- the `generic` flag the driver computes for every generated line (and the harness uses to decide whether the two Lean models
+    must agree exactly) is precisely the pair of hypotheses of `los_traverse_refines` -/
+theorem los_generic_flag_sound (shape : List ℕ) (s e : List ℚ) (lo hi : ℚ) (h : genericOn shape s (dirOf s e) lo hi = true) :
+    ((events shape s (dirOf s e) lo hi).map Prod.fst).Nodup ∧
+    ∀ se ∈ s.zip e, se.2 - se.1 ≠ 0 → ¬ Cross se.1 (se.2 - se.1) lo := genericOn_spec shape s e lo hi h
+
+/-- **matrix level** (`LOSResponse.__init__`): if every line either misses the grid (empty shrunk interval) or is generic, the COO
+    triples handed to `coo_matrix` are, row by row, the `(pixel, Δt)` lists of the independent segment model on the shrunk
+    intervals, and no index is out of range (`losInit` does not return `none` = `ValueError`) -/
+theorem los_init_refines (eps : ℚ) (heps : 0 ≤ eps) (shape : List ℕ) (hn : ∀ n ∈ shape, 0 < n) (dist : List ℚ)
+    (starts ends : List (List ℚ))
+    (hrows : ∀ r, r < starts.length → RowOK eps shape (toPix (starts.getD r []) dist) (toPix (ends.getD r []) dist)) :
+    losInit eps shape dist starts ends = some ⟨starts.length, prodL shape,
+      (List.range starts.length).flatMap fun r =>
+        (segRow eps shape (toPix (starts.getD r []) dist) (toPix (ends.getD r []) dist)).map fun p => (r, p.1, p.2)⟩ :=
+  losInit_refines eps heps shape hn dist starts ends hrows
+
 /-- the code's clipping (`d0/d1`, `np.minimum/np.maximum`, the `direction == 0` sentinel `±5·10¹¹`, `max(0,·)`, `min(1,·)`,
     `max(dmin, dmax)`) computes exactly the parameter interval of the independent `clipBox` — every dimension and shape with
     positive axis lengths, every start/end -/
@@ -283,6 +300,11 @@ example : (events [3, 2] [3/4, 3/4] (dirOf [3/4, 3/4] [13/4, 2]) 0 (9/10)).map P
 -- the point excluded by the `eps = 0` hypothesis `hgen`: a line entering through the low face (entry point ON a grid plane); there
 -- the code without its 1e-7 would emit a zero-length first segment and shift every later pixel by one row (driver output for
 -- `traverse 0 [3,2] [0,5/6] [4,13/6]`: pixels 0,2,3,5,7 — pixel 7 does not exist), with eps = 1e-7: pixels 0,1,3,5
+example : genericOn [3, 2] [3/4, 3/4] (dirOf [3/4, 3/4] [13/4, 2]) 0 (9/10) = true := by decide +kernel
+example : RowOK 0 [3, 2] [3/4, 3/4] [13/4, 2] :=
+  have h : genericOn [3, 2] [3/4, 3/4] (dirOf [3/4, 3/4] [13/4, 2]) ((clipT [3, 2] [3/4, 3/4] (dirOf [3/4, 3/4] [13/4, 2])).1 + 0)
+      ((clipT [3, 2] [3/4, 3/4] (dirOf [3/4, 3/4] [13/4, 2])).2 - 0) = true := by decide +kernel
+  Or.inr ⟨rfl, rfl, (genericOn_spec _ _ _ _ _ h).2, (genericOn_spec _ _ _ _ _ h).1⟩
 example : genEntryB [0, 5/6] [4, 13/6] 0 = false := by decide +kernel
 example : genEntryB [0, 5/6] [4, 13/6] (1/10000000) = true := by decide +kernel
 
